@@ -64,7 +64,7 @@ func run(c *core.Ctx) int {
 		recs[k] = append(recs[k], cr)
 	}
 	// fixed minimal histories of the known hazard (one per funcref channel and engine): a sensitivity control in every run
-	for _, ch := range []string{"private-table", "global", "table-grow", "shared-table", "imported-global", "lookup", "in-flight", "failed-instantiation", "failed-instantiation-exit", "engine-close", "engine-close-inflight"} {
+	for _, ch := range []string{"private-table", "global", "table-grow", "shared-table", "imported-global", "lookup", "in-flight", "failed-instantiation", "failed-instantiation-exit", "engine-close", "engine-close-inflight", "shared-compiled", "shared-compiled-twice"} {
 		for _, comp := range []bool{false, true} {
 			cr := caseRec{Seed: 1, Manual: ch, Compiler: comp}
 			lists[0] = append(lists[0], core.J(cr))
@@ -106,7 +106,8 @@ func run(c *core.Ctx) int {
 	c.Assume("instantiation/compilation failures after closes are outcomes of the closing host, not of a live instance: counted, never a violation; later steps on the missing instance are skipped and instances whose state thereby differs from the twin's are compared across R1/R2/R3 only")
 	code := c.Finish(d.evals, int64(c.DistinctN("nontrivial_histories")),
 		"PRNG histories (8-40 steps) over 2-4 guest modules (+host module, optional 2nd runtime sharing a CompilationCache) on interpreter/compiler alternately; each history run in 4 child processes (twin, clobberfree=1, default GC, efence=1 for <=14 steps); evaluation = one history decided; non-trivial = performed >=1 real close, >=1 forced GC and >=1 later observation on an instance, distinct by op-kind sequence; plus a -race sample of concurrent closers against a live importing instance (conc_* counters)")
-	if code == 0 { // only logs of child deaths attributed to known findings are left: no witness refers to them
+	os.RemoveAll(filepath.Join(c.Out, fmt.Sprintf("cache-%d", os.Getpid()))) // directory-backed compilation caches of this run's children
+	if code == 0 {                                                           // only logs of child deaths attributed to known findings are left: no witness refers to them
 		// (only this run's files: another run of the check may be using the same directory)
 		mine, _ := filepath.Glob(filepath.Join(c.Out, "children", fmt.Sprintf("*-%d-*", os.Getpid())))
 		for _, f := range mine {
@@ -288,7 +289,7 @@ func crashWords(s string) string {
 }
 
 func histLines(h *History, mark int) []string {
-	out := []string{fmt.Sprintf("engine=%s two_runtimes=%v cache=%v close_on_context_done=%v avoid_known=%v", engineName(h.Compiler), h.TwoRT, h.Cache, h.EnsureTerm, h.AvoidKnown)}
+	out := []string{fmt.Sprintf("engine=%s runtimes=%d cache=%s close_on_context_done=%v avoid_known=%v", engineName(h.Compiler), max(h.NRT, 1), h.CacheKind, h.EnsureTerm, h.AvoidKnown)}
 	for i, s := range h.Mods {
 		out = append(out, fmt.Sprintf("module m%d: %+v", i, s))
 	}
@@ -306,12 +307,14 @@ func histLines(h *History, mark int) []string {
 type graph struct {
 	h     *History
 	meta  []struct{ rt, slot int }
-	named [2]map[int]int
+	named [maxRT]map[int]int
 }
 
 func newGraph(h *History) *graph {
 	g := &graph{h: h, meta: make([]struct{ rt, slot int }, h.NInst)}
-	g.named[0], g.named[1] = map[int]int{}, map[int]int{}
+	for r := range g.named {
+		g.named[r] = map[int]int{}
+	}
 	for _, s := range h.Steps {
 		if s.Kind == "inst" {
 			g.meta[s.Inst] = struct{ rt, slot int }{s.RT, s.Slot}
@@ -424,11 +427,8 @@ func (d *decider) decide(cr caseRec, raw json.RawMessage, rs [4]*core.CaseResult
 	if h.AvoidKnown {
 		c.Count("histories_avoiding_known_hazard", 1)
 	}
-	if h.TwoRT {
-		c.Count("histories_two_runtimes_shared_cache", 1)
-	} else if h.Cache {
-		c.Count("histories_with_cache", 1)
-	}
+	c.Count("histories_cache_"+h.CacheKind, 1)
+	c.Count(fmt.Sprintf("histories_%d_runtimes", max(h.NRT, 1)), 1)
 	if h.EnsureTerm {
 		c.Count("histories_close_on_context_done", 1)
 	}
@@ -501,6 +501,19 @@ func (d *decider) decide(cr caseRec, raw json.RawMessage, rs [4]*core.CaseResult
 							}
 						}
 					}
+				}
+				if op.CompOpen {
+					c.Count("instantiations_through_open_compiled_module_judged", 1)
+				}
+				if op.CompOpen && strings.HasPrefix(tp[0], "ok") && strings.Contains(xp[0], "must be compiled before instantiation") {
+					// runtime, cache and the CompiledModule used are open: closes by OTHER users of the same binary must not make it unusable
+					sig := fmt.Sprintf("open-compiled-module-not-instantiable-after-other-users-closed:%s", eng)
+					c.Count("divergences", 1)
+					c.Violate(sig, fmt.Sprintf("run %s step %d (%s): twin instantiated, real-closes run failed with %q although this runtime, its cache and this CompiledModule are open", mode, s, op.String(), xp[0]),
+						map[string]any{"case": raw, "run": mode, "env": runModes[mi].env, "step": s, "twin": tp[0], "real": xp[0], "history": histLines(h, s),
+							"obs_twin": T.Obs, "obs_real": X.Obs})
+					violated = true
+					break
 				}
 				if tp[0] != xp[0] {
 					c.Count("instantiate_outcome_differs_from_twin_after_closes", 1)
@@ -778,6 +791,7 @@ func replay(c *core.Ctx, path string) int {
 		json.Unmarshal(res[0].Out, &o)
 		obs[mi] = o.Obs
 	}
+	os.RemoveAll(filepath.Join(c.Out, fmt.Sprintf("cache-%d", os.Getpid())))
 	for _, l := range histLines(h, -1)[:1+len(h.Mods)] {
 		fmt.Println(l)
 	}
